@@ -70,6 +70,28 @@ pub enum Act {
     Stop,
     /// error carrying this tag
     Error(u32),
+    /// error whose concrete type is the parser's own ParseState (variant chosen by the number)
+    ErrorState(u8),
+    /// error whose concrete type is the loader's dr::Error (variant chosen by the number)
+    ErrorLoader(u8),
+}
+
+pub fn state_for(n: u8) -> ParseState {
+    match n % 5 {
+        0 => ParseState::ConsumerStopRequested,
+        1 => ParseState::Complete,
+        2 => ParseState::HeaderIncorrect,
+        3 => ParseState::WordCountZero(4, 2),
+        _ => ParseState::EndiannessUnsupported,
+    }
+}
+
+pub fn loader_error_for(n: u8) -> dr::Error {
+    match n % 3 {
+        0 => dr::Error::NestedFunction,
+        1 => dr::Error::UnclosedBlock,
+        _ => dr::Error::DetachedInstruction(None),
+    }
 }
 
 #[derive(Debug)]
@@ -136,6 +158,14 @@ impl Recorder {
             Act::Error(t) => {
                 self.deviated = true;
                 ParseAction::Error(Box::new(TagError(t)))
+            }
+            Act::ErrorState(n) => {
+                self.deviated = true;
+                ParseAction::Error(Box::new(state_for(n)))
+            }
+            Act::ErrorLoader(n) => {
+                self.deviated = true;
+                ParseAction::Error(Box::new(loader_error_for(n)))
             }
         }
     }
